@@ -737,6 +737,26 @@ for _k in ("tensor", "sptensor"):
             key = tuple([slice(0, max(1, s - 1)) for s in e.shape])
             return f"{kind_}.__getitem__", X.__getitem__, (key,), {}
 
+        @entry(f"{kind_}.__getitem__(offset region holding every nonzero)", (2, 3))
+        def _b2(e, kind_=kind_):
+            # all stored entries lie inside the region that is read, and the region does not start at the origin (its subscripts are renumbered)
+            e.shape = tuple(s_ + 2 for s_ in e.shape)
+            A = np.zeros(e.shape)
+            inner = tuple(slice(1, s_ - 1) if e.rng.random() < 0.7 else slice(1, s_) for s_ in e.shape)
+            A[inner] = e.sparr(A[inner].shape) if kind_ == "sptensor" else e.arr(A[inner].shape)
+            X = e.sptensor(A=A) if kind_ == "sptensor" else ttb.tensor(A)
+            forms = [inner, tuple(list(range(k_.start, k_.stop))[::-1] for k_ in inner), tuple([1] + list(inner[1:]))]
+            return f"{kind_}.__getitem__", X.__getitem__, (forms[int(e.rng.integers(0, 3))],), {}
+
+        @entry(f"{kind_}.__getitem__(bare slice of linear indices)", ALLN)
+        def _b3(e, kind_=kind_):
+            if kind_ == "sptensor" and e.N > 1:
+                return None
+            X = e.holder(kind_)
+            n_ = int(np.prod(e.shape))
+            key = [slice(None), slice(0, n_), slice(1, None), slice(None, None, -1), slice(0, n_, 2)][int(e.rng.integers(0, 5))]
+            return f"{kind_}.__getitem__", X.__getitem__, (key,), {}
+
         @entry(f"{kind_}.__getitem__(subs)", ALLN)
         def _c(e, kind_=kind_):
             X = e.holder(kind_)
